@@ -2,6 +2,7 @@ import PycModel.Generator
 import PycModel.Properties.TablesPrec
 import PycModel.Properties.TablesGen
 import PycModel.Proofs.GenParen
+import PycModel.Proofs.GenExpr
 /-!
 # C07 — generated C re-parses to the same AST
 
@@ -37,5 +38,40 @@ example (a b c : Val) :
     genP binPrec false (.node "MINUS" "-" (.node "MINUS" "-" (.leaf a) (.leaf b)) (.leaf c))
       = .node "MINUS" "-" (.leaf (toVal (.node "MINUS" "-" (.leaf a) (.leaf b)))) (.leaf c) := by
   refine ⟨?_, ?_, ?_⟩ <;> simp [genP, bareL, bareR, binPrec, binaryPrecedence, toVal]
+
+/-! ## every expression form: what the generator prints is parsed back to the AST it was given -/
+open PycModel.FullExpr PycModel.GenExpr PycModel.View in
+/-- **Round trip of expressions, all forms, any size.**  `a`: an expression AST made of identifiers,
+constants, prefix / postfix operators, `sizeof`, subscripts, member accesses, calls, binary operators,
+`?:`, assignments, comma lists, casts, `sizeof` / `_Alignof` of type names (`WFA`: operators from the
+tables, constants typed by their spelling, an assignment's left side not itself a binary or conditional
+expression).  `GenExpr.G rp a`: the tokens `CGenerator` prints for it with `reduce_parentheses = rp`
+(`Proofs/GenExpr.lean`, compared with the real generator's text on every expression of the pool).
+From every state that sees these tokens followed by a token that cannot continue an expression,
+`_parse_expression` accepts them, consumes exactly them, and returns a tree that is, coordinates
+erased, the AST the generator was given. -/
+theorem generated_expression_reparses {env : Env} (rp : Bool) (a : A) (hw : WFA a)
+    (s : PState) (stop : Tk) (rest : List Tk) (hstop : StopX stop.1)
+    (hs : SeesT env s ((GenExpr.G rp a).flat ++ stop :: rest)) (F : Nat) (hF : (GenExpr.G rp a).fuel ≤ F) :
+    ∃ v s', run F .expression s = .ok v s' ∧ C17.erase v = a.shape ∧ SeesT env s' (stop :: rest) ∧
+      s'.idx = s.idx + (GenExpr.G rp a).ntoks := by
+  obtain ⟨s', hr, hs', hi⟩ := parse_full (GenExpr.G rp a) ((wf_G rp a hw).weaken (Nat.zero_le _)) s stop rest hstop hs F hF
+  exact ⟨_, s', hr, shape_G rp a hw s.idx, hs', hi⟩
+
+open PycModel.GenExpr PycModel.FullExpr in
+/-- non-vacuity: `a = (b , c) ? - (- d) : x [ i ] . f ( 1 ) ++` as an AST: the hypotheses hold and the
+printed tokens are `a = ( ( b , c ) ) ? ( - ( - d ) ) : ( x [ i ] . f ( 1 ) ++ )` -/
+example :
+    let a : A := .assign "EQUALS" "=" (.id "a")
+      (.cond (.comma (.id "b") (.cons (.id "c") .nil))
+        (.pre "MINUS" "-" (.pre "MINUS" "-" (.id "d")))
+        (.post "PLUSPLUS" "++" (.call (.member "PERIOD" "." (.index (.id "x") (.id "i")) "f")
+          (.cons (.const "INT_CONST_DEC" "1" "int") .nil))))
+    WFA a ∧ ((GenExpr.G true a).flat.map (·.2)) =
+      ["a", "=", "(", "(", "b", ",", "c", ")", ")", "?", "(", "-", "(", "-", "d", ")", ")", ":",
+       "(", "x", "[", "i", "]", ".", "f", "(", "1", ")", "++", ")"] := by
+  refine ⟨?_, by decide⟩
+  simp [WFA, WFAL, A.isBin, A.isCond]
+  decide
 
 end PycModel.C07
